@@ -1,8 +1,10 @@
 from checks.common import Build, Job
+from checks import cross
 from checks import c03
 
 PROP = "C04"
 BUILDS = c03.BUILDS
+# c03.BUILDS already carries the cross-property builds (checks/cross.py)
 RULE = ("every schedule (preemption budget, TSO delays, futex faults) of rcu_barrier scenarios on the real urcu-call-rcu-impl.h code "
         "over the specification flavor and real flavors (qsbr: caller online and offline): barrier after another thread's "
         "call_rcu, default + per-thread helpers, two concurrent barrier callers, barrier concurrent with helper "
@@ -44,6 +46,9 @@ def jobs(tier):
     if not q:
         J.append(Job(S, "barrier2", "1,1,0,0", workers=16))
         J.append(Job(S, "barrier", "3,0,0,0", {"reader": 1}, workers=16))
+    # the components this property's guarantee is built on, on the real code (checks/cross.py)
+    J += cross.gp_core(tier)
+    J += cross.fork_core(tier)
     return J
 
 
